@@ -8,7 +8,7 @@ ToSet(q) == {q[j] : j \in 1..Len(q)}
 MapOf(pairs) == [k \in {pairs[j][1] : j \in 1..Len(pairs)} |-> LET j == CHOOSE j \in 1..Len(pairs) : pairs[j][1] = k IN ToSet(pairs[j][2])]
 ShapeOf(nodes) == [p \in {nodes[j].path : j \in 1..Len(nodes)} |->
                      LET j == CHOOSE j \in 1..Len(nodes) : nodes[j].path = p
-                     IN [kind |-> nodes[j].kind, req |-> nodes[j].req, of |-> MapOf(nodes[j].of), req_of |-> MapOf(nodes[j].req_of)]]
+                     IN [kind |-> nodes[j].kind, req |-> nodes[j].req, of |-> MapOf(nodes[j].of), req_of |-> MapOf(nodes[j].req_of), ord |-> nodes[j].ord]]
 VARIABLE tidx
 Init == tidx \in 1..Len(Data.cases)
 Next == UNCHANGED tidx
